@@ -98,3 +98,51 @@ func ZZ_C14_ControllerWriterArrives() {
 	zzAssert(c.ZZLockDepth() == 0, "C14.controller.lock-left-held-after-"+h.name)
 	zzReach("C14.controller.writer-arrives.done")
 }
+
+// C11 (user deletion gate): DELETE snapshot marks the snapshot for removal on the
+// replicas only when all RF replicas are RW, a checkpoint is set and the snapshot is not
+// the checkpoint; a request that reports success reached every replica.
+func ZZ_C11_DeleteSnapshotGate() {
+	rf := zzParam("RF", 2)
+	c := controller.ZZSymbolicController(rf)
+	s := NewServer(c)
+	zzReadMode = 0
+	zzLastSnapName = nil
+	rw := 0
+	for _, r := range c.ListReplicas() {
+		if r.Mode == "RW" {
+			rw++
+		}
+	}
+	cp := c.Checkpoint
+	before := make([]int, rf+1)
+	for i := 0; i <= rf; i++ {
+		before[i] = len(controller.ZZReplicaActions(i))
+	}
+	err := s.DeleteSnapshot(&zzRW{}, zzRequest())
+	marked := 0
+	for i := 0; i <= rf; i++ {
+		acts := controller.ZZReplicaActions(i)
+		for _, a := range acts[before[i]:] {
+			if a == "prepareremovedisk" {
+				marked++
+			}
+		}
+	}
+	if marked > 0 {
+		zzReach("C11.delete-gate.reached-replicas")
+		zzAssert(rw == rf, "C11.user-deletion-started-without-all-RF-replicas-RW")
+		zzAssert(cp != "", "C11.user-deletion-started-without-a-checkpoint")
+		if zzLastSnapName != nil {
+			name := zzLastSnapName.Name
+			zzAssert(zzStrEq(name, "new"), "C11.user-deletion-of-the-checkpoint-or-an-empty-name-started")
+		}
+	}
+	if err == nil {
+		zzReach("C11.delete-gate.accepted")
+		zzAssert(marked == rf, "C11.user-deletion-reported-success-without-marking-every-replica")
+	} else {
+		zzReach("C11.delete-gate.refused")
+	}
+	zzAssert(c.ZZLockDepth() == 0, "C11.delete-gate.lock-left-held")
+}
